@@ -188,52 +188,70 @@ def corpus():
     from pytoniq_core.crypto.crc import crc16, crc32c
     rng = random.Random(7)
     cells = []
-    for i in range(40):
-        b = Builder()
-        for _ in range(rng.randrange(0, 6)):
-            n = rng.randrange(1, 65)
-            b.store_uint(rng.getrandbits(n), n)
-        b.store_int(-rng.getrandbits(20), 33)
-        b.store_coins(rng.getrandbits(rng.randrange(0, 100)))
-        for _ in range(rng.randrange(0, min(4, len(cells)) + 1)):
-            b.store_ref(rng.choice(cells))
-        if rng.random() < 0.3:
-            b.store_address(Address((rng.choice([0, -1]), bytes(rng.getrandbits(8) for _ in range(32)))))
-        c = b.end_cell()
-        cells.append(c)
-        out.append(c.hash.hex())
-    root = cells[-1]
-    for opts in [dict(), dict(has_idx=True), dict(hash_crc32=True), dict(has_idx=True, hash_crc32=True, has_cache_bits=True)]:
-        boc = root.to_boc(**opts)
-        out.append(hashlib.sha256(boc).hexdigest())
-        back = Cell.one_from_boc(boc)
-        out.append(back.hash.hex())
-        s = Slice.one_from_boc(boc.hex())
-        out.append(str(s.remaining_bits))
-    a = Address((-1, bytes(range(32))))
-    for uf in (True, False):
-        for us in (True, False):
-            for bn in (True, False):
-                t = a.to_str(uf, us, bn, False)
-                out.append(t)
-                out.append(Address(t).to_str(False))
-    hm = HashMap(32).with_uint_values(16)
-    for k in range(0, 200, 7):
-        hm.set_int_key(k * 7919 % (1 << 32), k)
-    d = hm.serialize()
-    out.append(d.hash.hex())
-    parsed = HashMap.parse(d.begin_parse(), 32, None, lambda s: s.load_uint(16))
-    out.append(json.dumps(sorted(parsed.items())))
-    out.append(crc16(b'123456789').hex() + crc32c(b'123456789').hex())
-    try:
+
+    def guarded(fn):
+        try:
+            fn()
+        except Exception as e:      # the same exception must then occur in both worlds
+            out.append(f'{fn.__name__}: {type(e).__name__}')
+
+    def sec_cells():
+        for i in range(40):
+            b = Builder()
+            for _ in range(rng.randrange(0, 6)):
+                n = rng.randrange(1, 65)
+                b.store_uint(rng.getrandbits(n), n)
+            b.store_int(-rng.getrandbits(20), 33)
+            b.store_coins(rng.getrandbits(rng.randrange(0, 100)))
+            for _ in range(rng.randrange(0, min(4, len(cells)) + 1)):
+                b.store_ref(rng.choice(cells))
+            if rng.random() < 0.3:
+                b.store_address(Address((rng.choice([0, -1]), bytes(rng.getrandbits(8) for _ in range(32)))))
+            c = b.end_cell()
+            cells.append(c)
+            out.append(c.hash.hex())
+
+    def sec_boc():
+        root = cells[-1]
+        for opts in [dict(), dict(has_idx=True), dict(hash_crc32=True), dict(has_idx=True, hash_crc32=True, has_cache_bits=True)]:
+            boc = root.to_boc(**opts)
+            out.append(hashlib.sha256(boc).hexdigest())
+            back = Cell.one_from_boc(boc)
+            out.append(back.hash.hex())
+            s = Slice.one_from_boc(boc.hex())
+            out.append(str(s.remaining_bits))
+
+    def sec_addr():
+        a = Address((-1, bytes(range(32))))
+        for uf in (True, False):
+            for us in (True, False):
+                for bn in (True, False):
+                    t = a.to_str(uf, us, bn, False)
+                    out.append(t)
+                    out.append(Address(t).to_str(False))
+
+    def sec_hashmap():
+        hm = HashMap(32).with_uint_values(16)
+        for k in range(0, 200, 7):
+            hm.set_int_key(k * 7919 % (1 << 32), k)
+        d = hm.serialize()
+        out.append(d.hash.hex())
+        parsed = HashMap.parse(d.begin_parse(), 32, None, lambda s: s.load_uint(16))
+        out.append(json.dumps(sorted(parsed.items())))
+
+    def sec_crc():
+        out.append(crc16(b'123456789').hex() + crc32c(b'123456789').hex())
+
+    def sec_tl():
         from pytoniq_core.tl.generator import TlGenerator
         sch = TlGenerator.with_default_schemas().generate()
         ser = sch.serialize(sch.get_by_name('tonNode.blockIdExt'), {'workchain': -1, 'shard': -(1 << 63), 'seqno': 5,
                                                                        'root_hash': '11' * 32, 'file_hash': '22' * 32})
         out.append(ser.hex())
         out.append(json.dumps(sch.deserialize(ser)[0], sort_keys=True))
-    except Exception as e:
-        out.append(f'tl: {type(e).__name__}')
+
+    for sec in (sec_cells, sec_boc, sec_addr, sec_hashmap, sec_crc, sec_tl):
+        guarded(sec)
     return hashlib.sha256('\n'.join(out).encode()).hexdigest(), len(out)
 
 
